@@ -506,20 +506,20 @@ class ResultQuantifier(CanBehaveLikeAVariable[T], ABC):
             yield from map(self._process_result_, self._evaluate__())
         finally:
             # between two evaluations the query does not hold on to the instances it ranged over (the lookup is
-            # lazy: a fresh domain remembers nothing until it is walked)
+            # lazy: a fresh domain remembers nothing until it is walked), nor to the bindings it concluded for
             self._refresh_domains_taken_from_the_symbol_graph_()
+            self._reset_conclusion_deduplication_()
 
     def _refresh_domains_taken_from_the_symbol_graph_(self):
         """
         A variable without a given domain ranges over the instances of its type that exist when the query is
         evaluated, not over the ones that existed when it was evaluated for the first time.
         """
-        # the nodes as they are now: branches of a rule may have been written after an earlier evaluation
         variables = [
-            variable
-            for selected_or_variable in self._all_variable_instances_
-            for variable in selected_or_variable._all_variable_instances_
-        ] + [node for node in self._descendants_ if isinstance(node, Variable)]
+            node
+            for node in self._nodes_of_this_query_and_its_nested_queries_()
+            if isinstance(node, Variable)
+        ]
         for variable in variables:
             # not getattr: variables turn unknown attribute names into symbolic attributes
             domain_source = vars(variable).get("_domain_source_")
@@ -529,12 +529,30 @@ class ResultQuantifier(CanBehaveLikeAVariable[T], ABC):
                     SymbolGraph().get_instances_of_type(variable._type_)
                 )
 
+    def _nodes_of_this_query_and_its_nested_queries_(self) -> List[SymbolicExpression]:
+        """
+        :return: The expression nodes of the query as they are now (branches of a rule may have been written after an
+         earlier evaluation), including what is reached only through a selected expression - a selected attribute of
+         a variable, a nested query that selects one - at any depth.
+        """
+        nodes, pending = {}, [self]
+        while pending:
+            node = pending.pop()
+            if id(node) in nodes or not isinstance(node, SymbolicExpression):
+                continue
+            nodes[id(node)] = node
+            pending.extend(node._descendants_)
+            # not getattr: variables turn unknown attribute names into symbolic attributes
+            pending.extend(vars(node).get("selected_variables") or ())
+            pending.extend(node._all_variable_instances_)
+        return list(nodes.values())
+
     def _reset_conclusion_deduplication_(self):
         """
         The conclusion selectors of a rule tree remember for which bindings they already concluded something.
         This memory belongs to one evaluation, a new evaluation has to start with an empty one.
         """
-        for node in self._descendants_:
+        for node in self._nodes_of_this_query_and_its_nested_queries_():
             # not getattr: variables turn unknown attribute names into symbolic attributes
             concluded_before = vars(node).get("concluded_before")
             if isinstance(concluded_before, dict):
